@@ -64,6 +64,25 @@ func c09(c *ctx) {
 		case 0:
 			g, _ = gram.Planted(r)
 			diag = true
+			if (i/4)%2 == 0 {
+				// the same diagnostics inside a grammar of 70-270 rules (anything the generator does only from a certain
+				// size on — a sequential fast path for small grammars, a worker pool for large ones — has to be met with
+				// warnings pending): a chain of filler rules reachable from the first rule, every third with an action
+				nf := 70 + r.Intn(200)
+				for k := 0; k < nf; k++ {
+					kids := []*gram.Expr{gram.Lit(fmt.Sprintf("f%d", k))}
+					if k%3 == 0 {
+						kids = append(kids, gram.Act())
+					}
+					if k+1 < nf {
+						kids = append(kids, gram.Un(gram.KQuery, gram.Ref(fmt.Sprintf("F%d", k+1))))
+					}
+					g.Rules = append(g.Rules, &gram.Rule{Name: fmt.Sprintf("F%d", k), E: gram.Seq(kids...)})
+				}
+				g.Rules[0].E.Kids = append(g.Rules[0].E.Kids, gram.Ref("F0"))
+				g.Number()
+				c.run.Count("large_grammars_with_diagnostics", 1)
+			}
 		case 1:
 			g = gram.ChoiceHeavy(r)
 		case 2:
@@ -300,7 +319,7 @@ func c09(c *ctx) {
 		c.run.Incon(fmt.Sprintf("only %d distinct interleavings of the two analysis goroutines were observed", len(sigs)))
 	}
 	c.run.Sample(map[string]any{"grammar": texts[1].name, "options": optSets[1], "repetitions": K, "GOMAXPROCS": gomax, "distinct_interleavings_for_this_pair": len(sigsPer[key{1, 1}])}, 3)
-	c.run.Rule = "cases: the shipped grammars plus generated ones (a quarter with planted diagnostics so that the warning path, stub creation and unused-rule path are live) x option sets; each (grammar, options, argument list) is generated K times in separate processes with GOMAXPROCS in {1,2,4,16} and distinct seeds of the build-tagged schedule perturbation hook (yield / 1-200us sleep at every step of the two concurrent analysis goroutines), with the hook's interleaving log on (non-race build) and again under the race detector with the log off (so that the hook adds no synchronisation); " +
+	c.run.Rule = "cases: the shipped grammars plus generated ones (a quarter with planted diagnostics so that the warning path, stub creation and unused-rule path are live; half of those inside a grammar of 70-270 rules) x option sets; each (grammar, options, argument list) is generated K times in separate processes with GOMAXPROCS in {1,2,4,16} and distinct seeds of the build-tagged schedule perturbation hook (yield / 1-200us sleep at every step of the two concurrent analysis goroutines), with the hook's interleaving log on (non-race build) and again under the race detector with the log off (so that the hook adds no synchronisation); " +
 		"finally 16 and 4 goroutines run parse+Execute+Compile on independent trees (distinct and identical texts, a third with undefined names; a quarter generating twice with one shared argument slice) in one -race process whose very first activity is that concurrent batch. Oracle: identical exit status, stderr and sha256(stdout) for all repetitions of a pair; zero race reports; concurrent Compile results equal the sequential ones. " +
 		"distinct_nontrivial = distinct (grammar, options) pairs that were observed under at least two different interleavings of the analysis goroutines (hook log)."
 	c.run.Assume("schedules are those produced by the Go scheduler under the hook's perturbation; not replayable bit for bit (no rr); the replay of a race is the detector's report plus the seed")
